@@ -570,9 +570,18 @@ pub fn c13_worlds(tier: Tier) -> Vec<WorldSpec> {
 /// C20 compares the three builds over the C17 worlds plus the semantic worlds of the unary
 /// operators, interval and share at their quick bounds.
 pub fn c20_worlds(tier: Tier) -> Vec<WorldSpec> {
-    let mut v = proto_worlds(tier, true, true);
+    let mut v = proto_worlds(Tier::Quick, true, true);
     v.extend(c07_worlds(Tier::Quick));
     v.extend(c14_worlds(Tier::Quick));
     v.extend(c16_worlds(Tier::Quick));
+    if tier == Tier::Quick {
+        // the quick tier compares the builds on a shallower cut of the same worlds
+        for s in v.iter_mut() {
+            s.cfg.e = s.cfg.e.saturating_sub(1).max(2);
+            s.cfg.d = s.cfg.d.saturating_sub(1).max(1);
+            let base = s.name.split(" E=").next().unwrap_or("").to_string();
+            s.name = format!("{} E={} D={}", base, s.cfg.e, s.cfg.d);
+        }
+    }
     v
 }
